@@ -1,5 +1,6 @@
 // c18.cpp — ext_gcd / get_mult_inverse / is_prime / SpVecFP on the real code, for long long, int and cpp_int.
-// Case kinds: G I P V = long long, GB IB PB VB = cpp_int, Gi Ii Pi Vi = int, Vs = short (vectors only: a narrow coefficient type, many common indices).
+// Case kinds: G I P V = long long, GB IB PB VB = cpp_int, Gi Ii Pi Vi = int, Vs = short (vectors only: a narrow coefficient type, many common indices),
+// VW VWB = long long / cpp_int vectors with the coordinates spread over both ends of the std::size_t index space.
 // Built three times by tools/props/c18.py: plain; with -fsanitize=signed-integer-overflow -fno-sanitize-recover=all (an
 // overflow aborts the process: the case answers CRASH); and the same with -DC18_NO_INVARIANTS_CHECK, i.e. without the
 // extra computations of PARMCB_INVARIANTS_CHECK (the assertion of ext_gcd, sqrtt*sqrtt in is_prime, the p <= 0 test).
@@ -38,14 +39,19 @@ template<class T> static void do_prime(Toks &t, std::ostream &out) {
     try { out << "P " << (parmcb::primes<T>::is_prime(p) ? 1 : 0); }
     catch (std::runtime_error *e) { out << "THROW"; delete e; }
 }
-template<class T> static void do_vec(Toks &t, std::ostream &out) {
+// wide = true (case kinds VW, VWB): the coordinates 0..D-1 of the history are renamed monotonically onto BOTH ends of the std::size_t index space
+// (i < D/2 stays, the others become SIZE_MAX-(D-1-i)), so that merged coordinates lie more than 2^63 apart; printed back under the inverse renaming
+template<class T> static void do_vec(Toks &t, std::ostream &out, bool wide = false) {
     typedef parmcb::SpVecFP<T> V;
-    T p = parse<T>(t.next()); size_t K = t.next_sz(); t.next_sz(); size_t nops = t.next_sz();
+    T p = parse<T>(t.next()); size_t K = t.next_sz(); const size_t D = t.next_sz(); size_t nops = t.next_sz();
+    const size_t SMAX = std::numeric_limits<size_t>::max();
+    auto ren = [&](size_t i) { return (!wide || i < D / 2) ? i : SMAX - (D - 1 - i); };
+    auto inv = [&](size_t x) { return (!wide || x < SMAX / 2) ? x : D - 1 - (SMAX - x); };
     std::vector<V> st(K, V(p));
     out << "O";
     for (size_t n = 0; n < nops; n++) {
         std::string o = t.next();
-        if (o == "U") { size_t d = t.next_sz(), i = t.next_sz(); st[d] = i; }
+        if (o == "U") { size_t d = t.next_sz(), i = t.next_sz(); st[d] = ren(i); }
         else if (o == "C") { size_t d = t.next_sz(), a = t.next_sz(); V tmp(st[a]); st[d] = tmp; }
         else if (o == "A") { size_t d = t.next_sz(), a = t.next_sz(); st[d] = st[a]; }
         else if (o == "M") { size_t d = t.next_sz(), a = t.next_sz(); V tmp(st[a]); V other(p == T(3) ? T(5) : T(3)); st[d] = other; st[d] = std::move(tmp); }   // target first COPY-assigned a vector over another prime
@@ -53,6 +59,10 @@ template<class T> static void do_vec(Toks &t, std::ostream &out) {
         else if (o == "Q") { size_t d = t.next_sz(), a = t.next_sz(); st[d] += st[a]; }
         else if (o == "S") { size_t d = t.next_sz(), a = t.next_sz(); T c = parse<T>(t.next()); st[d] = st[a] * c; }
         else if (o == "R") { size_t d = t.next_sz(); T c = parse<T>(t.next()); st[d] *= c; }
+        else if (o == "RA") {   // scaling by the vector's OWN leading coefficient, passed by reference into its storage (the case carries the value the dense computation predicts)
+            size_t d = t.next_sz(); T c = parse<T>(t.next());
+            if (st[d].begin() != st[d].end()) st[d] *= boost::get<1>(*st[d].begin()); else st[d] *= c;
+        }
         else if (o == "X") { size_t d = t.next_sz(); st[d].clear(); }
         else if (o == "D") { size_t a = t.next_sz(), b = t.next_sz(); T r = st[a] * st[b]; out << " " << r; }
         else if (o == "Z") { size_t a = t.next_sz(); out << " " << st[a].size(); }
@@ -60,7 +70,7 @@ template<class T> static void do_vec(Toks &t, std::ostream &out) {
     }
     for (size_t k = 0; k < K; k++) {
         out << " ; V";
-        for (auto it = st[k].begin(); it != st[k].end(); ++it) out << " " << boost::get<0>(*it) << ":" << boost::get<1>(*it);
+        for (auto it = st[k].begin(); it != st[k].end(); ++it) out << " " << inv(boost::get<0>(*it)) << ":" << boost::get<1>(*it);
         if (st[k].prime() != p) out << " PRIME-CHANGED";
     }
 }
@@ -72,6 +82,7 @@ int main() {
         else if (c == "I") do_inv<LL>(t, out); else if (c == "IB") do_inv<BI>(t, out); else if (c == "Ii") do_inv<int>(t, out);
         else if (c == "P") do_prime<LL>(t, out); else if (c == "PB") do_prime<BI>(t, out); else if (c == "Pi") do_prime<int>(t, out);
         else if (c == "V") do_vec<LL>(t, out); else if (c == "VB") do_vec<BI>(t, out); else if (c == "Vi") do_vec<int>(t, out); else if (c == "Vs") do_vec<short>(t, out);
+        else if (c == "VW") do_vec<LL>(t, out, true); else if (c == "VWB") do_vec<BI>(t, out, true);
         else throw std::runtime_error("bad case kind " + c);
     });
 }
